@@ -1,6 +1,18 @@
 """C10 — fork.Fold equals the sequential fold for any commutative monoid.
-Tie: H lock-step on the composite pool + collector model (oracle forkfold); direct oracle = fold."""
-import json
+Tie: H lock-step on the composite pool + collector model (oracle forkfold); direct oracle = fold.
+
+Script families (all judged by the same direct oracle `evaluate`):
+  plain   stage=Fold  mon=<base>                      compared with the Lean model (oracle forkfold)
+  procs   stage=Fold  mon=<base> procs=<1|2>          the same, but the harness PROCESS runs with GOMAXPROCS=<procs>
+                                                      (par up to 8 > GOMAXPROCS; the model does not depend on it)
+  slow    stage=FoldM mon=slow<d>:<base>              Combine takes d virtual ms, t<d> moves let time pass: Combine
+                                                      calls of different goroutines overlap deterministically
+  ref     stage=FoldM mon=[slow<d>:]ref:<base>        reference-typed carrier (*cell), Empty() returns a fresh cell,
+                                                      Combine accumulates in place into its left operand
+The FoldM families are outside what the model expresses (no clock in Go/ForkFold, the ref adapter holds one
+element): direct oracle only, no model comparison (see go/harness/lockstep/forkfold_test.go).
+"""
+import contextlib, json, os, re
 import vlib, lockstep as ls
 
 MONOIDS = {
@@ -11,33 +23,71 @@ MONOIDS = {
     "and": (1048575, lambda a, b: a & b),
     "or": (0, lambda a, b: a | b),
 }
+# identity differs from the Go zero value
+NONZERO_ID = ["prod", "min", "and", "max"]
 
 
-def gen_script(rng, maxlen=8):
-    par = rng.choice([1, 2, 2, 3, 4, 8])
-    n = rng.choice([0, 0, 1, 2]) if rng.random() < 0.25 else rng.randrange(0, (maxlen if par <= 2 else 5 if par == 3 else 4) + 1)
+def base_monoid(mon):
+    """mon = [slow<d>:][ref:]<base>"""
+    return mon.split(":")[-1]
+
+
+def variant(cfg):
+    p = cfg["mon"].split(":")[:-1]
+    v = "+".join(("slow" if x.startswith("slow") else x) for x in p) or "plain"
+    return v
+
+
+def gen_script(rng, maxlen=8, pars=None, mons=None, extra="", len8=4):
+    par = rng.choice(pars or [1, 2, 2, 3, 4, 8])
+    n = rng.choice([0, 0, 1, 2]) if rng.random() < 0.25 else rng.randrange(0, (maxlen if par <= 2 else 5 if par == 3 else 4 if par < 8 else len8) + 1)
     xs = [rng.randrange(1, 60) for _ in range(n)]
-    mon = rng.choice(sorted(MONOIDS))
-    cfg = "stage=Fold pkg=fork par=%d cap=%d mon=%s" % (par, rng.choice([0, 1, 2, 5]), mon)
+    mon = rng.choice(mons or sorted(MONOIDS))
+    cfg = "stage=Fold pkg=fork par=%d cap=%d mon=%s%s" % (par, rng.choice([0, 1, 2, 5]), mon, extra)
     sends = ["s%d" % x for x in xs] + ["c0"]
     recvs = ["r0"] * rng.randrange(0, 3)
     body = ls.interleave(rng, [sends, recvs])
     return cfg + " | " + " ".join(body + ["r0", "r0", "r0", "z"])
 
 
+def gen_procs(rng):
+    """few scheduler processors, many workers; monoids whose identity is not the zero value are favoured"""
+    procs = rng.choice([1, 2, 2])
+    mons = NONZERO_ID if rng.random() < 0.75 else None
+    return gen_script(rng, pars=[2, 3, 4, 4, 8, 8], mons=mons, extra=" procs=%d" % procs, len8=2)  # (the model's state set for par=8 grows fast with the input length)
+
+
+def gen_variant(rng, slow, ref):
+    """FoldM: slow and / or reference-typed monoid. Ends with enough virtual time for every Combine to return."""
+    par = rng.choice([1, 2, 2, 3, 4, 8])
+    n = rng.choice([0, 1, 2]) if rng.random() < 0.2 else rng.randrange(1, 8)
+    xs = [rng.randrange(1, 60) for _ in range(n)]
+    d = rng.choice([1, 2, 5]) if slow else 0
+    mon = ("slow%d:" % d if slow else "") + ("ref:" if ref else "") + rng.choice(sorted(MONOIDS))
+    extra = " procs=%d" % rng.choice([1, 2]) if rng.random() < 0.25 else ""
+    cfg = "stage=FoldM pkg=fork par=%d cap=%d mon=%s%s" % (par, rng.choice([0, 1, 2, 5, 8]), mon, extra)
+    sends = ["s%d" % x for x in xs] + ["c0"]
+    recvs = ["r0"] * rng.randrange(0, 3)
+    pauses = ["t%d" % rng.choice([1, d, 2 * d + 1]) for _ in range(rng.randrange(0, 4))] if slow else []
+    body = ls.interleave(rng, [sends, recvs, pauses])
+    # (n + par + 1) Combine calls in a row take at most 17 * 5 virtual ms
+    return cfg + " | " + " ".join(body + ["t1000", "r0", "r0", "r0", "z"])
+
+
 def evaluate(script, tr):
     cfg = tr.cfg
-    e, op = MONOIDS[cfg["mon"]]
+    e, op = MONOIDS[base_monoid(cfg["mon"])]
     xs = tr.sent.get(0, [])
     want = e
     for x in xs:
         want = op(want, x)
     key = {"stage": "Fold", "pkg": "fork", "mon": cfg["mon"]}
+    how = "par=%s" % cfg["par"] + (" GOMAXPROCS=%s" % cfg["procs"] if "procs" in cfg else "")
     vs = []
-    got = tr.values(0)
+    got = [int(t[1:]) if re.fullmatch(r"-?\d+", t[1:]) else t[1:] for t in tr.recv.get(0, []) if t[0] == "v"]
     if 0 in tr.closed:
         if got != [want]:
-            vs.append(vlib.Violation("impl", "fork.Fold par=%s over the %s monoid delivered %s for input %s; the sequential fold is %s" % (cfg["par"], cfg["mon"], got, xs, want),
+            vs.append(vlib.Violation("impl", "fork.Fold %s over the %s monoid delivered %s for input %s; the sequential fold is %s" % (how, cfg["mon"], got, xs, want),
                                      case=script, expected=[want], got=got, key=key))
     elif 0 in tr.closed_in:
         vs.append(vlib.Violation("impl", "fork.Fold: result channel not closed after the input was closed and the result received", case=script, got=got, key=key))
@@ -51,9 +101,84 @@ def evaluate(script, tr):
     return vs
 
 
+@contextlib.contextmanager
+def gomaxprocs(n):
+    """the harness processes started inside the block inherit GOMAXPROCS=<n> (None: the machine's default)"""
+    old = os.environ.get("GOMAXPROCS")
+    if n is not None:
+        os.environ["GOMAXPROCS"] = str(n)
+    try:
+        yield
+    finally:
+        if n is not None:
+            if old is None:
+                os.environ.pop("GOMAXPROCS", None)
+            else:
+                os.environ["GOMAXPROCS"] = old
+
+
+def judge_all(ctx, binp, scripts):
+    """ls.judge for a mixed bag of scripts: every script runs in a harness process with the GOMAXPROCS it asks for
+    (procs=<n>; default: the machine's); stage=Fold scripts are then compared with the Lean model in ONE oracle pass,
+    stage=FoldM scripts are not (direct oracle only); crashes are attributed, the direct oracle `evaluate` and the
+    teardown leak check are applied to all. Returns [(script, Trace or None)]."""
+    cfgs = [ls.parse_cfg(s) for s in scripts]
+    obs, crashes = [None] * len(scripts), {}
+    for procs in sorted({c.get("procs") for c in cfgs}, key=str):
+        idx = [i for i, c in enumerate(cfgs) if c.get("procs") == procs]
+        with gomaxprocs(procs):
+            o, cr = ls.run_scripts(ctx, binp, [scripts[i] for i in idx])
+        for j, i in enumerate(idx):
+            obs[i] = o[j]
+        for j, txt in cr.items():
+            crashes[idx[j] if j >= 0 else -1] = txt
+    midx = [i for i, c in enumerate(cfgs) if c["stage"] == "Fold"]
+    verdicts = dict(zip(midx, ls.oracle_check(ctx, [scripts[i] for i in midx], [obs[i] for i in midx], sub="forkfold")))
+    out = []
+    for i, s in enumerate(scripts):
+        cfg = cfgs[i]
+        ctx.hist("stage", "fork.Fold")
+        if i in crashes:
+            txt = crashes[i]
+            cls = "deadlock" if "deadlock" in txt else ("panic" if "panic" in txt else "crash")
+            m = re.search(r"panic: ([^\n]*)", txt)
+            ctx.violations.append(vlib.Violation("impl", "fork.Fold (%s monoid): the library crashed: %s" % (cfg["mon"], m.group(1) if m else cls), case=s,
+                                                 got=txt[-1500:], key={"stage": "Fold", "pkg": "fork", "class": cls}))
+            out.append((s, None))
+            continue
+        if obs[i] is None:
+            ctx.broken.append({"kind": "correspondence", "detail": "no observation for script", "case": s})
+            out.append((s, None))
+            continue
+        tr = ls.Trace(s, obs[i])
+        out.append((s, tr))
+        ctx.hist("completed_sends", sum(len(v) for v in tr.sent.values()))
+        if i not in verdicts:
+            ctx.cov["direct_oracle_only"] = ctx.cov.get("direct_oracle_only", 0) + 1
+        elif verdicts[i] == "ok":
+            ctx.cov["traces_validated_against_impl"] += 1
+        else:
+            ctx.broken.append({"kind": "correspondence", "detail": "model does not admit the implementation's observations", "case": s,
+                               "impl": " ".join(obs[i]), "model": verdicts[i]})
+        ctx.violations += evaluate(s, tr)
+        if tr.end and tr.end != (0, 0):
+            ctx.violations.append(vlib.Violation("impl", "fork.Fold: %d output(s) never closed / %d goroutine(s) left after cancel, close and drain" % tr.end,
+                                                 case=s, key={"stage": "Fold", "pkg": "fork", "class": "leak"}))
+        if i % 131 == 0:
+            ctx.sample({"script": s, "observations": " ".join(obs[i]), "model": verdicts.get(i, "not compared (direct oracle only)")}, limit=8)
+    if -1 in crashes:
+        ctx.broken.append({"kind": "correspondence", "detail": "harness failed: " + crashes[-1][-800:]})
+    return out
+
+
 def run(ctx):
     ctx.cov["rule"] = ("script = fork.Fold with par in {1,2,3,4,8}, input capacity 0/1/2/5, commutative monoid in {sum, prod mod p, max, min, bit-and, bit-or} (zero and non-zero "
-                       "identities), inputs of length 0..8 incl. empty and shorter than par, sends/close interleaved with receives on the result channel; non-trivial = par >= 2 and at least 2 elements")
+                       "identities), inputs of length 0..8 incl. empty and shorter than par, sends/close interleaved with receives on the result channel; non-trivial = par >= 2 and at least 2 elements. "
+                       "Families (distribution.variant / distribution.procs): plain; procs = the same scripts with the harness process limited to GOMAXPROCS 1 or 2 and par up to 8 "
+                       "(non-zero identities favoured), both compared with the Lean model; slow = Combine takes 1/2/5 virtual ms under synctest and the script lets time pass in t<d> moves, so "
+                       "Combine calls of different goroutines overlap; ref = reference-typed carrier (*cell; Empty() returns a fresh cell, Combine accumulates in place into its left operand), "
+                       "par = 1 included. slow and ref scripts (coverage.direct_oracle_only) are NOT compared with the model (it has no clock; the *cell adapter holds one element): they are "
+                       "judged by the direct oracle only: exactly one value, equal to the sequential fold of the completed sends, then closed, no goroutine left.")
     ctx.assumptions += ls.ASSUME
     ls.regen_stages(ctx, pipe=False, fork=True)
     ctx.prove()
@@ -62,12 +187,22 @@ def run(ctx):
     if ctx.replay:
         scripts = [json.load(open(ctx.replay))["case"]]
     else:
-        scripts = [gen_script(ctx.rng) for _ in range(4000 if ctx.thorough() else 400)]
-    trs = ls.judge(ctx, scripts, evaluate, sub="forkfold", record=False)
-    for s, tr in zip(scripts, trs):
+        k = 10 if ctx.thorough() else 1
+        scripts = [gen_script(ctx.rng) for _ in range(400 * k)]
+        scripts += [gen_procs(ctx.rng) for _ in range(100 * k)]
+        scripts += [gen_variant(ctx.rng, True, False) for _ in range(80 * k)]
+        scripts += [gen_variant(ctx.rng, False, True) for _ in range(60 * k)]
+        scripts += [gen_variant(ctx.rng, True, True) for _ in range(40 * k)]
+    binp, err = ls.build(ctx)
+    if binp is None:
+        ctx.broken.append({"kind": "correspondence", "detail": "lock-step harness does not build against /repo/pipe", "log": err})
+        return
+    for s, tr in judge_all(ctx, binp, scripts):
         if tr is not None:
             ctx.hist("par", tr.cfg["par"])
-            ctx.hist("monoid", tr.cfg["mon"])
+            ctx.hist("monoid", base_monoid(tr.cfg["mon"]))
+            ctx.hist("variant", variant(tr.cfg))
+            ctx.hist("procs", tr.cfg.get("procs", "default"))
             ctx.hist("len", len(tr.sent.get(0, [])))
             ctx.count(s, nontrivial=int(tr.cfg["par"]) >= 2 and len(tr.sent.get(0, [])) >= 2)
     if ctx.thorough() and not ctx.replay:
